@@ -901,7 +901,8 @@ def judge_sre(item, res):
         return out
     if lines[0].startswith("(err"):
         msg = lines[0][5:].strip().rstrip(")").strip().strip('"')
-        shape = "zero-repeat" if "zero-repeat" in features(e) else "other"
+        # the compile error of a zero repeat is "unknown sre"; any other message has another cause
+        shape = "zero-repeat" if msg == "unknown sre" and "zero-repeat" in features(e) else "other"
         out["pairs"] = 1
         out["violations"].append(({"kind": "error", "msg": msg, "shape": shape},
                                   dict(base_wit, observed=lines[0], expected="a regexp object (valid SRFI 115 SRE)")))
